@@ -338,6 +338,8 @@ class MonitoredFocusList(MonitoredList[_T], typing.Generic[_T]):
 
         focus = self._focus
         if step == 1:
+            # an empty or reversed slice touches nothing: it is the insertion point `start`
+            stop = max(start, stop)
             if start + num_new_items <= focus < stop:
                 focus = stop
             # adjust for added/removed items
@@ -347,6 +349,9 @@ class MonitoredFocusList(MonitoredList[_T], typing.Generic[_T]):
         else:  # noqa: PLR5501  # pylint: disable=else-if-used  # readability
             if not num_new_items:
                 # extended slice being removed
+                if step < 0:
+                    # same indices in ascending order
+                    start, stop, step = start + (num_removed - 1) * step, start + 1, -step
                 if focus in range(start, stop, step):
                     focus += 1
 
